@@ -189,6 +189,32 @@ def bounded_pipeline_skip(p):
       ok = sink.closed >= 1 and sink.data == [i + 100 for i in range(first_bad)] and ((got[0] == 'raise') == bool(bad))
       if not S.check(ok, dict(op='sink', bad=list(bad), num_threads=threads), f'sink bad={bad} threads={threads}: run {got}, sink saw {sink.data}, closed {sink.closed} times', cls='sink'):
         return S.result()
+    # --- a sink whose write() fails on some records, with skipping: the failing records are dropped, every other record is
+    # written once and forwarded, still aligned with its own input ---
+    class _FailingSink(_Sink):
+      def write(self, x):
+        if x in badset:
+          raise ValueError('write failed')
+        self.data.append(x)
+    fsink = _FailingSink()
+    def run_failing_sink():
+      pl = transform.TreeTransform().sink(fsink)
+      return list(pl.make().iterate(range(n), ignore_error=True))
+    got = expect(run_failing_sink)
+    if not S.check(got == ('ok', good) and fsink.data == good and fsink.closed >= 1, dict(op='sink with failing writes', bad=list(bad)),
+                   f'sink whose write fails on {bad}, ignore_error: forwarded {got}, written {fsink.data}, closed {fsink.closed}; expected {good} for both', cls='failing-sink'):
+      return S.result()
+    # --- a source element that cannot be READ (the source itself does not skip), first operator a plain apply, skipping on:
+    # every readable element is still delivered ---
+    for sliceable in (True, False):
+      def run_unreadable():
+        ds = io.SequenceDataSource(FaultySeq(n, bad, sliceable))
+        pl = transform.TreeTransform().data_source(ds).apply(lambda x: x + 100)
+        return list(pl.make().iterate(ignore_error=True))
+      got = expect(run_unreadable)
+      if good and not S.check(got == ('ok', [g + 100 for g in good]), dict(op='apply over an unreadable source element', bad=list(bad), sliceable=sliceable),
+                              f'apply over a source with unreadable {bad} (ignore_error on the pipeline only): {got}; expected {[g + 100 for g in good]}', cls='unreadable-source'):
+        return S.result()
     # --- re-batching options with error skipping (rows are batches of one column) ---
     for fbs, bs in ((0, 2), (2, 2), (3, 2)):
       def run_rebatch():
